@@ -20,25 +20,41 @@ def StopsAgree (p : Program) : List Config → List (BreakPoint × VM) → Prop
   | c :: cs, (_, vm) :: vs => ViewsAgree p c vm ∧ StopsAgree p cs vs
   | _, _ => False
 
+/-- the agreement established by the simulation is `StopsAgree` -/
+theorem stopsAgree_of (p : Program) : ∀ (cs : List Config) (vs : List (BreakPoint × VM)),
+    Sim.StopsAgree' p cs vs → StopsAgree p cs vs
+  | [], [], _ => trivial
+  | _ :: cs, (_, vm) :: vs, h => ⟨stacksAgree_of p vm _ _ h.1, stopsAgree_of p cs vs h.2⟩
+  | [], _ :: _, h => h
+  | _ :: _, [], h => h
+
 /-- every finite prefix of the source-level visit sequence is the site sequence of some bytecode
     prefix, with the variable views agreeing at every stop -/
 theorem C07_step_trace (src : Source) (p : Program)
     (hs : siteCheck src p = true) (hw : wfCheck p = true) (n : Nat) :
     ∃ m, (sitesPassed p m (VM.mk' p)).map (fun x => posOfBp x.1) = visits src n (initial src) ∧
          StopsAgree p (visitConfigs src n (initial src)) (sitesPassed p m (VM.mk' p)) := by
-  sorry
+  obtain ⟨V, tend, hV, hT⟩ := Sim.tvalid_of_siteCheck hs
+  obtain ⟨R, hc⟩ := WF.certOK_of_check hw
+  obtain ⟨m, h1, h2⟩ := Sim.step_trace hc hV hT n
+  exact ⟨m, h1, stopsAgree_of p _ _ h2⟩
 
 /-- conversely the bytecode passes no site the source does not visit: every bytecode prefix's
     site sequence is a prefix of the visit sequence of some source prefix -/
 theorem C07_no_extra_stops (src : Source) (p : Program)
     (hs : siteCheck src p = true) (hw : wfCheck p = true) (m : Nat) :
     ∃ n, (sitesPassed p m (VM.mk' p)).map (fun x => posOfBp x.1) <+: visits src n (initial src) := by
-  sorry
+  obtain ⟨V, tend, hV, hT⟩ := Sim.tvalid_of_siteCheck hs
+  obtain ⟨R, hc⟩ := WF.certOK_of_check hw
+  exact Sim.no_extra_stops hc hV hT m
 
 /-- a stepping run stops exactly at the sites it passes, reporting their location (link to the
     debugger theorems: with stepping mode on, `step` returns `true` at a site) -/
 theorem C07_stepping_stops_at_sites (vm vm' : VM) (r : Bool) (h : step vm = .ok (vm', r))
     (hst : vm.stepping = true) (hs : fetch vm.code vm.ip = .ok Instr.potBreak) : r = true := by
-  sorry
+  rw [InvB.step_eq, hs] at h
+  have h' : InvB.execI Instr.potBreak vm = .ok (vm', r) := h
+  simp only [InvB.execI, pure, Except.pure, Except.ok.injEq, Prod.mk.injEq] at h'
+  rw [← h'.2, hst]
 
 end Theo
